@@ -86,4 +86,462 @@ theorem endswith_mirror (l t : Bits) (start stop : Option Int) :
     · rfl
 
 
+theorem cutLoop_mirror (l : Bits) (bits e : Nat) (count : Option Nat) (fuel a c : Nat) :
+    cutLoop .lsb0 l bits e count fuel a c
+      = (cutLoop .msb0 l.reverse bits e count fuel a c).map (List.map List.reverse) := by
+  induction fuel generalizing a c with
+  | zero => rfl
+  | succ fuel ih =>
+    have body : ∀ (stop : Bool),
+        (if stop = true then (Except.ok [] : Except Err (List Bits)) else
+          match slice_ .lsb0 l (a : Int) (min ((a : Int) + (bits : Int)) (e : Int)) with
+          | .error err => .error err
+          | .ok chunk =>
+            if chunk.length = 0 then .ok [] else
+            if chunk.length ≠ bits then .ok [chunk] else
+            match cutLoop .lsb0 l bits e count fuel (a + bits) (c + 1) with
+            | .error err => .error err
+            | .ok rest => .ok (chunk :: rest))
+        = (if stop = true then (Except.ok [] : Except Err (List Bits)) else
+          match slice_ .msb0 l.reverse (a : Int) (min ((a : Int) + (bits : Int)) (e : Int)) with
+          | .error err => .error err
+          | .ok chunk =>
+            if chunk.length = 0 then .ok [] else
+            if chunk.length ≠ bits then .ok [chunk] else
+            match cutLoop .msb0 l.reverse bits e count fuel (a + bits) (c + 1) with
+            | .error err => .error err
+            | .ok rest => .ok (chunk :: rest)).map (List.map List.reverse) := by
+      intro stop
+      cases stop with
+      | true => rfl
+      | false =>
+        (try simp only [Bool.false_eq_true, ↓reduceIte])
+        rw [slice_mirror]
+        cases slice_ .msb0 l.reverse (a : Int) (min ((a : Int) + (bits : Int)) (e : Int)) with
+        | error err => rfl
+        | ok chunk =>
+          simp only [Except.map, List.length_reverse]
+          by_cases h1 : chunk.length = 0
+          · simp only [h1, if_true]; rfl
+          · simp only [h1, if_false]
+            by_cases h2 : chunk.length ≠ bits
+            · simp only [if_pos h2]; rfl
+            · simp only [if_neg h2]
+              rw [ih]
+              cases cutLoop .msb0 l.reverse bits e count fuel (a + bits) (c + 1) with
+              | error err => rfl
+              | ok rest => rfl
+    simp only [cutLoop]
+    cases count with
+    | none => exact body false
+    | some k => exact body (decide (c ≥ k))
+
+theorem cut_mirror (l : Bits) (bits : Int) (start stop : Option Int) (count : Option Int) :
+    cutOp .lsb0 l bits start stop count = (cutOp .msb0 l.reverse bits start stop count).map (List.map List.reverse) := by
+  unfold cutOp
+  simp only [List.length_reverse]
+  cases validateSlice l.length start stop with
+  | error e => rfl
+  | ok ab =>
+    obtain ⟨a, b⟩ := ab
+    simp only []
+    split
+    · rfl
+    · split
+      · rfl
+      · exact cutLoop_mirror l _ _ _ _ _ _
+
+theorem insertOp_mirror (l v : Bits) (pos : Int) :
+    insertOp .lsb0 l v pos = (insertOp .msb0 l.reverse v.reverse pos).map List.reverse := by
+  unfold insertOp
+  simp only [List.length_reverse]
+  split
+  · simp [Except.map]
+  · generalize (if pos < 0 then pos + (l.length : Int) else pos) = p
+    split
+    · rfl
+    · rename_i hp
+      exact insert_mirror l v p (by omega)
+
+theorem overwriteOp_mirror (l v : Bits) (pos : Int) :
+    overwriteOp .lsb0 l v pos = (overwriteOp .msb0 l.reverse v.reverse pos).map List.reverse := by
+  unfold overwriteOp
+  simp only [List.length_reverse]
+  split
+  · simp [Except.map]
+  · generalize (if pos < 0 then pos + (l.length : Int) else pos) = p
+    split
+    · rfl
+    · rename_i hp
+      exact overwrite_mirror l v p (by omega)
+
+theorem reverseOp_mirror (l : Bits) (start stop : Option Int) :
+    reverseOp .lsb0 l start stop = (reverseOp .msb0 l.reverse start stop).map List.reverse := by
+  unfold reverseOp
+  simp only [List.length_reverse]
+  cases h : validateSlice l.length start stop with
+  | error e => rfl
+  | ok ab =>
+    obtain ⟨a, b⟩ := ab
+    have hb := validateSlice_bounds _ _ _ _ _ h
+    simp only []
+    split
+    · simp [Except.map]
+    · rw [slice_mirror]
+      cases slice_ .msb0 l.reverse a b with
+      | error e => rfl
+      | ok s =>
+        simp only [Except.map]
+        rw [setvalid_mirror l _ a b (by omega) (by omega), List.reverse_reverse]
+        rfl
+
+
+theorem rorBody_mirror (l : Bits) (bits : Nat) (start stop : Option Int) :
+    rorBody .lsb0 l bits start stop = (rorBody .msb0 l.reverse bits start stop).map List.reverse := by
+  unfold rorBody
+  simp only [List.length_reverse]
+  cases h : validateSlice l.length start stop with
+  | error e => rfl
+  | ok ab =>
+    obtain ⟨a, b⟩ := ab
+    have hb := validateSlice_bounds _ _ _ _ _ h
+    simp only []
+    split
+    · rfl
+    · rename_i hne
+      have hk : bits % (b - a) < b - a := Nat.mod_lt _ (by omega)
+      split
+      · simp [Except.map]
+      · rw [slice_mirror]
+        cases slice_ .msb0 l.reverse ((b : Int) - (bits % (b - a) : Nat)) b with
+        | error e => rfl
+        | ok rhs =>
+          simp only [Except.map]
+          rw [delete_mirror]
+          cases delete_ .msb0 l.reverse (bits % (b - a) : Nat) ((b : Int) - (bits % (b - a) : Nat)) with
+          | error e => rfl
+          | ok l1 =>
+            simp only [Except.map]
+            rw [insert_mirror l1.reverse rhs.reverse a (by omega), List.reverse_reverse, List.reverse_reverse]
+            rfl
+
+theorem rolBody_mirror (l : Bits) (bits : Nat) (start stop : Option Int) :
+    rolBody .lsb0 l bits start stop = (rolBody .msb0 l.reverse bits start stop).map List.reverse := by
+  unfold rolBody
+  simp only [List.length_reverse]
+  cases h : validateSlice l.length start stop with
+  | error e => rfl
+  | ok ab =>
+    obtain ⟨a, b⟩ := ab
+    have hb := validateSlice_bounds _ _ _ _ _ h
+    simp only []
+    split
+    · rfl
+    · rename_i hne
+      have hk : bits % (b - a) < b - a := Nat.mod_lt _ (by omega)
+      split
+      · simp [Except.map]
+      · rw [slice_mirror]
+        cases slice_ .msb0 l.reverse a ((a : Int) + (bits % (b - a) : Nat)) with
+        | error e => rfl
+        | ok lhs =>
+          simp only [Except.map]
+          rw [delete_mirror]
+          cases delete_ .msb0 l.reverse (bits % (b - a) : Nat) a with
+          | error e => rfl
+          | ok l1 =>
+            simp only [Except.map]
+            rw [insert_mirror l1.reverse lhs.reverse ((b : Int) - (bits % (b - a) : Nat)) (by omega),
+              List.reverse_reverse, List.reverse_reverse]
+            rfl
+
+theorem rol_ror_mirror (l : Bits) (bits : Int) (start stop : Option Int) :
+    rolOp .lsb0 l bits start stop = (rorOp .msb0 l.reverse bits start stop).map List.reverse ∧
+    rorOp .lsb0 l bits start stop = (rolOp .msb0 l.reverse bits start stop).map List.reverse := by
+  unfold rolOp rorOp
+  simp only [List.length_reverse]
+  constructor
+  · split
+    · rfl
+    · split
+      · rfl
+      · exact rorBody_mirror l _ _ _
+  · split
+    · rfl
+    · split
+      · rfl
+      · exact rolBody_mirror l _ _ _
+
+theorem readFn_mirror (l : Bits) (pos k : Nat) :
+    readFn .lsb0 l pos k = (readFn .msb0 l.reverse pos k).map List.reverse := by
+  unfold readFn
+  simp only [List.length_reverse]
+  split
+  · rfl
+  · exact getslice_mirror l _ rfl (by simp)
+
+theorem readOp_mirror (l : Bits) (pos : Nat) (tk : Tok) (k : Nat) :
+    readOp .lsb0 l pos tk k = (readOp .msb0 l.reverse pos tk k).map fun r => (r.1.reverse, r.2) := by
+  cases tk <;> simp only [readOp, List.length_reverse]
+  · split
+    · rfl
+    · rw [slice_mirror]
+      cases slice_ .msb0 l.reverse pos ((pos : Int) + k) <;> rfl
+  all_goals
+    split
+    · rfl
+    · rw [readFn_mirror]
+      cases readFn .msb0 l.reverse pos k with
+      | error e => rfl
+      | ok s =>
+        simp only [Except.map]
+        split <;> rfl
+
+theorem readList_mirror (l : Bits) (toks : List (Tok × Nat)) (pos : Nat) :
+    readList .lsb0 l pos toks
+      = (readList .msb0 l.reverse pos toks).map fun r => (r.1.map (fun x => (x.1, x.2.reverse)), r.2) := by
+  induction toks generalizing pos with
+  | nil => rfl
+  | cons t ts ih =>
+    obtain ⟨tk, k⟩ := t
+    simp only [readList]
+    split
+    · rfl
+    · rw [readFn_mirror]
+      cases readFn .msb0 l.reverse pos k with
+      | error e => rfl
+      | ok s =>
+        simp only [Except.map]
+        rw [ih]
+        cases readList .msb0 l.reverse (pos + k) ts with
+        | error e => rfl
+        | ok r => rfl
+
+theorem pack_mirror (toks : List Bits) :
+    packOp .lsb0 toks = (packOp .msb0 (toks.map List.reverse)).reverse := by
+  simp only [packOp]
+  rw [List.reverse_flatten, List.map_map]
+  have : (List.reverse ∘ List.reverse : Bits → Bits) = id := by funext x; simp
+  rw [this, List.map_id]
+
+
+theorem sliceStep1_some_some {α} (l : List α) (a b : Nat) (hab : a ≤ b) (hb : b ≤ l.length) :
+    sliceStep1 l (some (a : Int)) (some (b : Int)) = (l.drop a).take (b - a) := by
+  have h1 := sliceStep1_eq l (some (a : Int)) (some (b : Int))
+  rw [C01.getSlice_take_drop l a b hab hb] at h1
+  injection h1 with h1
+  exact h1.symm
+
+theorem sliceStep1_none_none {α} (l : List α) : sliceStep1 l none none = l := by
+  have h1 := sliceStep1_eq l none none
+  rw [C01.getSlice_all l] at h1
+  injection h1 with h1
+  exact h1.symm
+
+theorem sliceStep1_some_none {α} (l : List α) (a : Nat) (ha : a ≤ l.length) :
+    sliceStep1 l (some (a : Int)) none = l.drop a := by
+  unfold sliceStep1
+  have h1 : ¬ ((1 : Int) < 0) := by omega
+  have h2 : ¬ ((a : Int) < 0) := by omega
+  simp only [Py.sliceIndices, h1, h2, if_false]
+  have e1 : (min (a : Int) (l.length : Int)).toNat = a := by omega
+  have e2 : ((l.length : Int) - min (a : Int) (l.length : Int)).toNat = l.length - a := by omega
+  rw [e1, e2, List.take_of_length_le (by simp)]
+
+theorem sliceStep1_none_neg {α} (l : List α) (k : Nat) (hk : 1 ≤ k) (hkn : k ≤ l.length) :
+    sliceStep1 l none (some (-(k : Int))) = l.take (l.length - k) := by
+  unfold sliceStep1
+  have h1 : ¬ ((1 : Int) < 0) := by omega
+  have h2 : (-(k : Int) < 0) := by omega
+  simp only [Py.sliceIndices, h1, h2, if_false, if_true]
+  have e2 : (max (-(k : Int) + (l.length : Int)) 0 - 0).toNat = l.length - k := by omega
+  rw [e2]
+  simp
+
+theorem shift_closed (m : Mode) (l : Bits) (n : Int) (hn : 0 ≤ n) (hl : l ≠ []) :
+    shlOp m l n = .ok (l.drop (min n.toNat l.length) ++ List.replicate (min n.toNat l.length) false) ∧
+    shrOp m l n = .ok (List.replicate (min n.toNat l.length) false ++ l.take (l.length - min n.toNat l.length)) ∧
+    ishlOp m l n = shlOp m l n ∧ ishrOp m l n = shrOp m l n := by
+  have hlen : l.length ≠ 0 := by
+    intro h; exact hl (List.length_eq_zero_iff.mp h)
+  have hn' : ¬ n < 0 := by omega
+  have hshl : shlOp m l n = .ok (l.drop (min n.toNat l.length) ++ List.replicate (min n.toNat l.length) false) := by
+    simp only [shlOp, hn', hlen, if_false, absoluteSlice, getsliceMsb0]
+    congr 2
+    split
+    · rename_i h; rw [← h]; simp
+    · rw [sliceStep1_some_some l _ _ (by omega) (by omega), List.take_of_length_le (by simp)]
+  have hshr : shrOp m l n = .ok (List.replicate (min n.toNat l.length) false ++ l.take (l.length - min n.toNat l.length)) := by
+    simp only [shrOp, hn', hlen, if_false, absoluteSlice, getsliceMsb0]
+    split
+    · rename_i h0; subst h0; simp
+    · congr 2
+      split
+      · rename_i h; rw [h]; simp
+      · rw [sliceStep1_some_some l 0 _ (by omega) (by omega)]; simp
+  refine ⟨hshl, hshr, ?_, ?_⟩
+  · rw [hshl]
+    simp only [ishlOp, hn', hlen, if_false, getsliceMsb0]
+    split
+    · rename_i h0; subst h0; simp
+    · congr 1
+      rw [sliceStep1_some_none _ _ (by simp), List.drop_append_of_le_length (by omega)]
+  · rw [hshr]
+    simp only [ishrOp, hn', hlen, if_false, getsliceMsb0]
+    split
+    · rename_i h0; subst h0; simp
+    · rename_i h0
+      congr 1
+      have hk : 1 ≤ min n.toNat l.length := by omega
+      rw [sliceStep1_none_neg _ _ hk (by simp)]
+      simp only [List.length_append, List.length_replicate]
+      rw [List.take_append]
+      simp
+
+
+theorem shift_opposite (l : Bits) (n : Int) :
+    shlOp .lsb0 l n = (shrOp .msb0 l.reverse n).map List.reverse ∧
+    shrOp .lsb0 l n = (shlOp .msb0 l.reverse n).map List.reverse := by
+  by_cases hn : n < 0
+  · simp [shlOp, shrOp, hn, Except.map]
+  · by_cases hl : l = []
+    · subst hl; simp [shlOp, shrOp, hn, Except.map]
+    · have hr : l.reverse ≠ [] := by simpa using hl
+      have c1 := shift_closed .lsb0 l n (by omega) hl
+      have c2 := shift_closed .msb0 l.reverse n (by omega) hr
+      rw [c1.1, c1.2.1, c2.1, c2.2.1]
+      simp only [Except.map, List.length_reverse, List.reverse_append, List.reverse_replicate]
+      constructor
+      · congr 2
+        rw [List.reverse_take, List.reverse_reverse, List.length_reverse]
+        congr 1; omega
+      · congr 2
+        rw [List.reverse_drop, List.reverse_reverse, List.length_reverse]
+
+theorem whole_value (m : Mode) (l : Bits) :
+    wholeBits m l = .ok l ∧ uintOf m l = .ok (bitsToNat l) ∧ intOf m l = .ok (bitsToInt l) := by
+  have h : wholeBits m l = .ok l := by
+    unfold wholeBits
+    cases m with
+    | msb0 => simp only [getslice, getsliceMsb0, sliceStep1_none_none]
+    | lsb0 =>
+      rw [getslice2_mirror]
+      simp only [getslice, getsliceMsb0, sliceStep1_none_none, Except.map, List.reverse_reverse]
+  exact ⟨h, by simp only [uintOf, h, Except.map], by simp only [intOf, h, Except.map]⟩
+
+/-! method tables -/
+
+theorem lookup_filter_ne {κ β} [DecidableEq κ] [BEq κ] [LawfulBEq κ] (env : List (κ × β)) (k k0 : κ) (h : k ≠ k0) :
+    (env.filter (fun e => e.1 ≠ k0)).lookup k = env.lookup k := by
+  induction env with
+  | nil => rfl
+  | cons x xs ih =>
+    obtain ⟨kx, bx⟩ := x
+    by_cases hx : kx = k0
+    · subst hx
+      have h1 : (k == kx) = false := by simpa using h
+      have hd : decide (kx ≠ kx) = false := by simp
+      rw [List.filter_cons]
+      simp only [hd, Bool.false_eq_true, if_false, List.lookup_cons, h1]
+      exact ih
+    · have hd : decide (kx ≠ k0) = true := by simpa using hx
+      rw [List.filter_cons]
+      simp only [hd, if_true, List.lookup_cons, ih]
+
+theorem lookupAttr_setAttr (env : Attrs) (b : Binding) (c a : String) :
+    lookupAttr (setAttr env b) c a =
+      if (c, a) = (b.1, b.2.1) then some (b.2.2.1, b.2.2.2) else lookupAttr env c a := by
+  unfold lookupAttr setAttr
+  by_cases h : (c, a) = (b.1, b.2.1)
+  · rw [if_pos h, List.lookup_cons]
+    have : ((c, a) == (b.1, b.2.1)) = true := by simpa using h
+    rw [this]
+  · rw [if_neg h, List.lookup_cons]
+    have : ((c, a) == (b.1, b.2.1)) = false := by simpa using h
+    rw [this]
+    simp only []
+    exact lookup_filter_ne env (c, a) (b.1, b.2.1) h
+
+def kv (b : Binding) : (String × String) × (String × String) := ((b.1, b.2.1), (b.2.2.1, b.2.2.2))
+
+theorem lookupAttr_foldl (tb : List Binding) (env : Attrs) (c a : String) :
+    lookupAttr (tb.foldl setAttr env) c a =
+      match (tb.reverse.map kv).lookup (c, a) with
+      | some f => some f
+      | none => lookupAttr env c a := by
+  induction tb generalizing env with
+  | nil => rfl
+  | cons b bs ih =>
+    rw [List.foldl_cons, ih, List.reverse_cons, List.map_append, List.lookup_append]
+    cases hl : (bs.reverse.map kv).lookup (c, a) with
+    | some f => simp
+    | none =>
+      simp only [Option.none_or, List.map_cons, List.map_nil, kv, List.lookup_cons, List.lookup_nil]
+      rw [lookupAttr_setAttr]
+      by_cases h : (c, a) = (b.1, b.2.1)
+      · have : ((c, a) == (b.1, b.2.1)) = true := by simpa using h
+        rw [this, if_pos h]
+      · have : ((c, a) == (b.1, b.2.1)) = false := by simpa using h
+        rw [this, if_neg h]
+
+theorem lookup_reverse_of_nodup' {κ β} [BEq κ] [LawfulBEq κ] (A : List (κ × β)) (hA : (A.map Prod.fst).Nodup) (a : κ) :
+    A.reverse.lookup a = A.lookup a := by
+  induction A with
+  | nil => rfl
+  | cons x xs ih =>
+    obtain ⟨k, b⟩ := x
+    simp only [List.map_cons, List.nodup_cons] at hA
+    rw [List.reverse_cons, List.lookup_append, ih hA.2]
+    simp only [List.lookup_cons, List.lookup_nil]
+    by_cases h : a = k
+    · subst h
+      have hnone : xs.lookup a = none := by
+        rw [List.lookup_eq_none_iff]
+        intro p hp
+        have : p.1 ≠ a := fun hh => hA.1 (hh ▸ List.mem_map_of_mem (f := Prod.fst) hp)
+        simpa [bne_iff_ne] using fun hh => this hh.symm
+      simp [hnone]
+    · have h1 : (a == k) = false := by simpa using h
+      simp [h1]
+
+theorem table_keys_nodup (v : Bool) : (((if v then lsb0Table else msb0Table).map kv).map Prod.fst).Nodup := by
+  cases v <;> decide
+
+theorem setLsb0_lookup' (env : Attrs) (v : Bool) (c a : String) :
+    lookupAttr (setLsb0 env v) c a =
+      match ((if v then lsb0Table else msb0Table).map kv).lookup (c, a) with
+      | some f => some f
+      | none => lookupAttr env c a := by
+  unfold setLsb0
+  rw [lookupAttr_foldl, List.map_reverse, lookup_reverse_of_nodup' _ (table_keys_nodup v)]
+
+theorem table_lookup_none_iff (v w : Bool) (k : String × String) :
+    ((if v then lsb0Table else msb0Table).map kv).lookup k = none ↔
+    ((if w then lsb0Table else msb0Table).map kv).lookup k = none := by
+  have hkeys : ∀ u : Bool, ((if u then lsb0Table else msb0Table).map kv).map Prod.fst = (msb0Table.map kv).map Prod.fst := by
+    intro u; cases u <;> decide
+  have key : ∀ u : Bool, ((if u then lsb0Table else msb0Table).map kv).lookup k = none ↔ k ∉ (msb0Table.map kv).map Prod.fst := by
+    intro u
+    rw [List.lookup_eq_none_iff, ← hkeys u]
+    simp only [List.mem_map, not_exists, not_and, bne_iff_ne, ne_eq]
+    constructor
+    · intro h p hp hk; exact h p hp hk.symm
+    · intro h p hp hk; exact h p hp hk.symm
+  rw [key v, key w]
+
+theorem toggle_restores' (env : Attrs) (hist : List Bool) (v : Bool) (c a : String) :
+    lookupAttr (setLsb0 (hist.foldl setLsb0 env) v) c a = lookupAttr (setLsb0 env v) c a := by
+  rw [setLsb0_lookup', setLsb0_lookup']
+  cases hl : ((if v then lsb0Table else msb0Table).map kv).lookup (c, a) with
+  | some f => rfl
+  | none =>
+    simp only []
+    induction hist generalizing env with
+    | nil => rfl
+    | cons h hs ih =>
+      rw [List.foldl_cons, ih, setLsb0_lookup']
+      have := (table_lookup_none_iff v h (c, a)).mp hl
+      rw [this]
+
+
 end BM.C12
